@@ -9,7 +9,11 @@ from . import progcheck as P, progrun
 PROP = "C08"
 GARBAGE = ["this is not assembly !!", "ldi r16, 999", ".error \"unselected\"", ".message \"unselected\"", "dup_label: nop", ".equ leak = 1",
            "  foo bar baz", ".db 300", ".undef nothing", ".device nosuch", ".org 0x5000", "\"", ".include \"missing.inc\"", ".set leak2 = 2",
-           ".define LEAK", ".macro neverdefined", ".dw undefined_symbol", ".endm", ".exit"]
+           ".define LEAK", ".macro neverdefined", ".dw undefined_symbol", ".endm", ".exit",
+           # text that merely LOOKS like the end or an arm of the block: in comments, strings, longer words, other positions
+           "; .endif", "// .else", "/* .endif */", "nop ; .endif", ".message \".endif\"", ".db \".else\", 0", "x.endif", "endif", "else:",
+           ".dw 1 ; .elif 1", "; #endif", "/* .if 0 */ nop", "elif: nop", ". endif", ".message \"#else\""]
+TAILS = ["", "", "", " ", "\t", ";x", " ;x", "; .endif", " ; .else", "//x", " // .endif", "/*x*/", " /* .else */", "\r"]
 
 
 class Tree:
@@ -43,6 +47,23 @@ class Tree:
         return ".elif " + (self.rng.choice(["1", "one", "two-1", "7", "-1", "one-two", "~zero", "0-7", "1<<63"]) if truth
                            else self.rng.choice(["0", "zero", "two-2", "1==2", "-0", "~(0-1)", "!one"]))
 
+    def deco(self, line):
+        """surface variants of a conditional-directive line, all accepted by the line grammar: '#' for '.', leading blanks, a
+        label in front, the expression in parentheses glued to the name, a comment of any of the three kinds glued or spaced"""
+        r = self.rng
+        if r.random() < 0.5:
+            return line
+        word, _, rest = line.partition(" ")
+        if rest and word[1:] in ("if", "elif") and r.random() < 0.3:
+            line = "%s(%s)" % (word, rest)
+        if r.random() < 0.25:
+            line = ("#" if line[0] == "." else ".") + line[1:]
+        line = r.choice(["", "", " ", "\t", "  "]) + line
+        if r.random() < 0.15:
+            self.n += 1
+            line = "dl%d:%s%s" % (self.n, r.choice(["", " "]), line)
+        return line + r.choice(TAILS)
+
     def block(self, depth, truths, has_else, live):
         """-> list of (line, selected?)"""
         out = []
@@ -52,14 +73,15 @@ class Tree:
             # an .elif after a taken arm is not evaluated: it may even be undefined
             if i > 0 and taken and self.rng.random() < 0.3:
                 head = ".elif undefined_symbol_x"
+            head = self.deco(head)
             out.append((head, live))
             sel = live and t and not taken
             out += self.body(depth, sel)
             taken = taken or t
         if has_else:
-            out.append((".else", live))
+            out.append((self.deco(".else"), live))
             out += self.body(depth, live and not taken)
-        out.append((".endif", live))
+        out.append((self.deco(".endif"), live))
         return out
 
     def body(self, depth, sel):
